@@ -738,6 +738,11 @@ class ADCResponse(APCI):
         if not 0 <= self.channel <= 0x3F:
             raise ConversionError("Channel out of range.")
         payload = struct.pack("!BBH", self.channel, self.count, self.value)
+        if self.channel and self.CODE.value | self.channel in (
+            service.value for service in APCIService
+        ):
+            # 0x1C8 and above of the A_ADC_Response block are dedicated services
+            raise ConversionError("Channel collides with the APCI of another service.")
 
         return encode_cmd_and_payload(
             self.CODE, encoded_payload=payload[0], appended_payload=payload[1:]
